@@ -1,6 +1,8 @@
 package main
 
 import (
+	"github.com/pip-services3-gox/pip-services3-expressions-gox/calculator/parsers"
+	"time"
 	"fmt"
 	"strings"
 )
@@ -46,6 +48,34 @@ func propC02(c *Ctx) {
 		"x Iſ NULL", "x iſ not null", "falſe OR x", "a lıke 'b'", "x ıs null", "x ıN (1)", "nuLL", "TRUE aNd fAlSe", "x Iſ nuLL", "not falſe", "1 ıN 2", "x \u212a", "TRU\u0395",
 		"1 + 😀 2", "😀", "1 😀", "a + \U00010000", "\uffff 1", "1 \uffff + 2", "f(😀)", "'😀' + 😀"} {
 		runParseCase(c, t, "incomplete-exponent / astral")
+	}
+	// a parser that rejected very deep inputs before accepts the next sentence like a new one
+	{
+		op := "deepreject"
+		c.record(op, true)
+		c.count("deep-rejected-history")
+		note := ""
+		st := safeCallT(120*time.Second, func() string {
+			p := parsers.NewExpressionParser()
+			for i := 0; i < 4; i++ {
+				for _, deep := range []string{strings.Repeat("(", 70000), strings.Repeat("f(", 35000), "a" + strings.Repeat("[b", 35000), strings.Repeat("(", 30000) + "1 +"} {
+					if err := p.ParseString(deep); err == nil {
+						note = "an unclosed nesting of tens of thousands of levels was accepted"
+						return ""
+					}
+				}
+			}
+			for _, e := range []string{"(1)", "MAX(1, 2)", "'abc'[1]", "((a + b) * (c - d))"} {
+				if err := p.ParseString(e); err != nil {
+					note = fmt.Sprintf("after 16 rejected deeply nested inputs the parser rejects %q with %s; a new parser accepts it", e, errCode(err))
+					return ""
+				}
+			}
+			return ""
+		})
+		if st != "" || note != "" {
+			c.fail(Failure{Kind: "oracle", Op: op, Impl: st, Note: note})
+		}
 	}
 	propScaleExpressions(c, "C02")
 	// (2) generated sentences + (3) token-level mutants of any size
